@@ -1,8 +1,14 @@
 package main
 
-import "syscall"
+import (
+	"runtime/debug"
+	"syscall"
+)
 
-// limitMemory caps the address space of a worker process.
+// limitMemory caps the address space of a worker process and tells the Go runtime about
+// the cap (debug.SetMemoryLimit is the limit the interpreter's allocator consults: a host
+// that confines the process is expected to set it, e.g. through GOMEMLIMIT).
 func limitMemory(bytes uint64) {
 	_ = syscall.Setrlimit(syscall.RLIMIT_AS, &syscall.Rlimit{Cur: bytes, Max: bytes})
+	debug.SetMemoryLimit(int64(bytes / 2))
 }
